@@ -3,7 +3,7 @@ from . import cacheworld as cw
 
 PROP = 'C02'
 PROFILE = 'c02'
-QUICK = (160, 60, 60.0)
+QUICK = (288, 60, 60.0)
 THOROUGH = (1200, 100, 840.0)
 boot, execute, cfg_sig, nontrivial = cw.boot, cw.execute, cw.cfg_sig, cw.nontrivial
 SHRINK_LISTS, SHRINK_DICTS = cw.SHRINK_LISTS, cw.SHRINK_DICTS
